@@ -1,2 +1,55 @@
-(* C04 statements; proofs in Proofs/. *)
-From BaoV Require Import Model.Fsm Spec.EncSpec.
+(* C04 - the encoding is a function of the selected chunks; the block size only prunes pairs.
+   Statements only; proofs in Proofs/Enc*.v.
+     keep HO bs q size i (Proofs/EncPrune.v) = true for ILeaf items; for IParent n _ _ :
+        negb ((sp_level n <? bs) &&
+              forallb (sel q size) (chunk_range_list (sp_chunk_start n) (N.min (sp_chunk_end n) (nchunks size))))
+     i.e. a pair is dropped iff its node is below the block size (2^(sp_level n + 1) <= 2^bs chunks of
+     capacity) and all its chunks inside the blob are selected.
+     enc_nodes, stored_ok, stored_ok_fsm: see Props/C02enc.v *)
+From BaoV Require Import Model.Fsm Spec.RangeSpec Spec.NodeSpec Spec.PlanSpec Spec.EncSpec Spec.HashAssm.
+From BaoV Require Import Proofs.EncLoop Proofs.EncThm Proofs.EncPrune Proofs.EncNodes.
+
+Theorem C04_function_of_selection : forall (HO : hops) (data : bytes HO) (bs : N) (q1 q2 : ranges) (ob : outboard HO),
+  wf_ranges q1 = true -> wf_ranges q2 = true -> blen HO data <= 2 ^ 63 -> bs <= 10 ->
+  ob_tree ob = mkTree (blen HO data) bs -> ob_root ob = root_hash HO data -> beq_correct HO ->
+  (forall c, sel q1 (blen HO data) c = sel q2 (blen HO data) c) ->
+  (forall nd, In nd (enc_nodes (blen HO data) bs q1) -> stored_ok HO data ob nd) ->
+  encode_ranges_validated HO data ob q1 = encode_ranges_validated HO data ob q2.
+Proof. exact function_of_selection_one. Qed.
+Print Assumptions C04_function_of_selection.
+
+Theorem C04_function_of_selection_fsm : forall (HO : hops) (data : bytes HO) (bs : N) (q1 q2 : ranges) (ob : outboard HO),
+  wf_ranges q1 = true -> wf_ranges q2 = true -> blen HO data <= 2 ^ 63 -> bs <= 10 ->
+  ob_tree ob = mkTree (blen HO data) bs -> ob_root ob = root_hash HO data -> beq_correct HO ->
+  (forall c, sel q1 (blen HO data) c = sel q2 (blen HO data) c) ->
+  (forall nd, In nd (enc_nodes (blen HO data) bs q1) -> stored_ok_fsm HO data ob nd) ->
+  encode_ranges_validated_fsm HO data ob q1 = encode_ranges_validated_fsm HO data ob q2.
+Proof. exact function_of_selection_one_fsm. Qed.
+Print Assumptions C04_function_of_selection_fsm.
+
+(* the parents of the encoder's plan depend on the query only through the selection:
+   sel_nodes size bs S (Proofs/EncNodes.v) = nspec 64 bs S 0 (nchunks size), the recursion over chunk intervals
+   [a, b): none if b - a <= 2^bs or no chunk of [a, b) is selected, else the node a + h - 1
+   (h = next_pow2 (b - a) / 2) followed by the nodes of [a, a + h) and of [a + h, b) *)
+Theorem C04_enc_nodes_of_selection : forall (HO : hops) (data : bytes HO) (bs : N) (q : ranges),
+  wf_ranges q = true -> blen HO data <= 2 ^ 63 -> bs <= 10 ->
+  enc_nodes (blen HO data) bs q = sel_nodes (blen HO data) bs (sel q (blen HO data)).
+Proof. exact enc_nodes_spec. Qed.
+Print Assumptions C04_enc_nodes_of_selection.
+
+Theorem C04_pruning : forall (HO : hops) (data : bytes HO) (bs : N) (q : ranges),
+  blen HO data <= 2 ^ 63 ->
+  flat HO (honest HO data bs q) = flat HO (filter (keep HO bs q (blen HO data)) (honest HO data 0 q)).
+Proof. exact prune. Qed.
+Print Assumptions C04_pruning.
+
+Theorem C04_keep_def : forall (HO : hops) (bs : N) (q : ranges) (size : N) (i : item HO),
+  keep HO bs q size i =
+  match i with
+  | ILeaf _ _ => true
+  | IParent n _ _ =>
+      negb ((sp_level n <? bs) &&
+            forallb (sel q size) (chunk_range_list (sp_chunk_start n) (N.min (sp_chunk_end n) (nchunks size))))
+  end.
+Proof. exact keep_def. Qed.
+Print Assumptions C04_keep_def.
